@@ -8,7 +8,7 @@ open Ptk Ptk.Py Ptk.Proto Ptk.C17
   n ≥ 0 = `other n` (n < 0x110000: the character, else an editing key, see `Ed`).
 
   stateful commands (reply = the observable state):
-    init | W n k1..kn | S | R n | F
+    init k | W n k1..kn | S | R n | F     (S is ignored once k prompts have finished)
   one-shot:
     E2E k  <events…>   events: w n k1..kn | s | r n | f
       reply: results and the unconsumed keys
@@ -58,25 +58,35 @@ def startEv (s : St) : St :=
   let s1 := step s .start
   if s1.kp.done.isSome then step s1 .finish else s1
 
-def stepLine (s : St) (toks : List String) : St × String :=
+/-- driver state: the model state and the number of prompts the harness will start -/
+abbrev DS := St × Nat
+
+def stepLine (ds : DS) (toks : List String) : DS × String :=
+  let s := ds.1
+  let kmax := ds.2
+  let ret (s' : St) : DS × String := ((s', kmax), showSt s')
+  let bad : DS × String := (ds, "bad-op")
   match toks with
-  | ["init"] => (St.init, showSt St.init)
+  | ["init", k] =>
+    match decNat k with
+    | some k => ((St.init, k), showSt St.init)
+    | none => bad
   | "W" :: n :: rest =>
     match decNat n with
     | some n =>
       match takeKeys n rest with
-      | some (ks, []) => let s' := step s (.write ks); (s', showSt s')
-      | _ => (s, "bad-op")
-    | none => (s, "bad-op")
-  | ["S"] => let s' := startEv s; (s', showSt s')
+      | some (ks, []) => ret (step s (.write ks))
+      | _ => bad
+    | none => bad
+  | ["S"] => ret (if s.results.length < kmax then startEv s else s)
   | ["R", n] =>
     match decNat n with
-    | some n => let s' := step s (.read n); (s', showSt s')
-    | none => (s, "bad-op")
-  | ["F"] => let s' := step s .finish; (s', showSt s')
+    | some n => ret (step s (.read n))
+    | none => bad
+  | ["F"] => ret (step s .finish)
   | "E2E" :: k :: evs =>
     match decNat k with
-    | none => (s, "bad-op")
+    | none => bad
     | some k =>
       let rec go (fuel : Nat) (st : St) (ts : List String) : Option St :=
         match fuel with
@@ -101,8 +111,8 @@ def stepLine (s : St) (toks : List String) : St × String :=
       match go (evs.length + 1) St.init evs with
       | some st =>
         let left := st.typeahead ++ dropCpr st.kp.queue ++ dropCpr st.pipe
-        (s, s!"run={encBool st.running} res={encList encRes st.results} left={encKeys left}")
-      | none => (s, "bad-op")
-  | _ => (s, "bad-op")
+        (ds, s!"run={encBool st.running} res={encList encRes st.results} left={encKeys left}")
+      | none => bad
+  | _ => bad
 
-def main : IO Unit := runS stepLine St.init
+def main : IO Unit := runS stepLine (St.init, 0)
